@@ -30,7 +30,7 @@ import (
 
 // Op is one editing operation (the replayable description of a history is a list of these).
 type Op struct {
-	K    string `json:"k"`              // create delete connect disconnect update name desc producer setmeta delmeta
+	K    string `json:"k"`              // create delete connect disconnect update name desc producer setmeta delmeta eval
 	Ty   string `json:"ty,omitempty"`   // create: type tag (or an unregistered key)
 	ID   string `json:"id,omitempty"`   // target node id
 	Src  string `json:"src,omitempty"`  // connect: source node id
@@ -45,6 +45,9 @@ type histDesc struct {
 	AppVersion string `json:"appVersion"`
 	AppDesc    string `json:"appDesc"`
 	Ops        []Op   `json:"ops"`
+	// Cont: edits applied AFTER the save, to the live instance and to the reloaded one alike ("the same graph"
+	// includes how it carries on: ids handed out next, caches, parameter state)
+	Cont []Op `json:"cont,omitempty"`
 }
 
 type outcome struct {
@@ -89,6 +92,10 @@ func unb64(s string) []byte {
 // the harness, independent of the instance): the model does not parse JSON or PNG.
 func applyOp(inst *graph.Instance, op Op) (string, outcome) {
 	switch op.K {
+	case "eval":
+		// a READ: every artifact is produced (caches are warm afterwards), the UI's view of the graph and every
+		// parameter's message are requested. Not an edit: the model is not told (empty rendering).
+		return "", guard(func() error { readEverything(inst); return nil })
 	case "create":
 		key := op.Ty
 		coqTy := len(tyTable) + 7 // an index outside the table: unregistered type
@@ -236,9 +243,6 @@ func paramRecord(n nodes.Node) jv {
 	if gp.DisplayName() != s.Name {
 		panic("harness: DisplayName differs from Schema().Name")
 	}
-	if !bytes.Equal(gp.ToMessage(), []byte(s.Current)) && !mustJSON(gp.ToMessage()).equal(mustJSON(s.Current)) {
-		panic("harness: ToMessage differs from Schema().CurrentValue")
-	}
 	cli := jnull()
 	cf := reflect.ValueOf(n).Elem().FieldByName("CLI")
 	if cf.IsValid() && !cf.IsNil() {
@@ -253,7 +257,9 @@ var arrayDepName = regexp.MustCompile(`^([^.]*)\.(0|[1-9][0-9]*)$`)
 // instance has no node enumeration besides its schema).
 //
 //	[ nodes; producers; metadata ]
-//	node     = [id; type index; ports; parameter record]
+//	node     = [id; type index; ports; parameter record; message view]
+//	message view = JNull | [value]: the value denoted by Instance.ParameterData(id), the message the edit
+//	               server answers a parameter read with (decoded on a fresh parameter of the type)
 //	ports    = [[field; [source ids in ARRAY ORDER]] ...] in port-table order
 //	producer = [name; node id; port], sorted by name
 func summarize(inst *graph.Instance, ids []string) (jv, error) {
@@ -321,7 +327,7 @@ func summarize(inst *graph.Instance, ids []string) (jv, error) {
 		if seen != len(scalars)+len(arrays) {
 			return jv{}, fmt.Errorf("node %q reports a dependency on a port that is not in its table", id)
 		}
-		nodesOut = append(nodesOut, jarr(jstr(id), jint(int64(ti)), jlist(ports), paramRecord(n)))
+		nodesOut = append(nodesOut, jarr(jstr(id), jint(int64(ti)), jlist(ports), paramRecord(n), messageView(inst, id, t)))
 	}
 	prods := []jv{}
 	names := inst.ProducerNames()
@@ -337,6 +343,37 @@ func summarize(inst *graph.Instance, ids []string) (jv, error) {
 		meta = map[string]any{}
 	}
 	return jarr(jlist(nodesOut), jlist(prods), canonValue(meta)), nil
+}
+
+// messageView: what a client reading the parameter (GET parameter value -> Instance.ParameterData) is told
+func messageView(inst *graph.Instance, id string, t *tyInfo) jv {
+	if t.PKind == 0 {
+		return jnull()
+	}
+	var msg []byte
+	if o := guard(func() error { msg = inst.ParameterData(id); return nil }); !o.ok {
+		return jstr("ParameterData: " + o.class)
+	}
+	if msg == nil {
+		return jnull()
+	}
+	v, ok := messageValue(inst, id, msg)
+	if !ok {
+		return jstr("ParameterData returns a message the type refuses")
+	}
+	return jarr(v)
+}
+
+// readEverything: the reads a client can make, none of which may change the graph
+func readEverything(inst *graph.Instance) {
+	artifacts(inst)
+	g := schema.App{}
+	inst.EncodeToAppSchema(&g, &jbtf.Encoder{})
+	for id := range g.Nodes {
+		if _, isParam := inst.Node(id).(graph.Parameter); isParam {
+			inst.ParameterData(id)
+		}
+	}
 }
 
 // artifacts: [[producer name; outcome; length; sha256]] sorted by name
